@@ -214,6 +214,8 @@ enum Frame
         order: [Vec<u8>; 2],
         /// per (system, component): index of the removal event its latest reaction belongs to
         progress: HashMap<(SysUid, u8), usize>,
+        /// who caused the event behind a required reaction (the run and the position of the op)
+        causes: HashMap<(SysUid, Item), (Sender, usize)>,
     },
 }
 
@@ -263,6 +265,8 @@ pub struct Checker
     cur_cause: Option<(Sender, usize)>,
     /// dead, not yet polled entity -> the op that despawned it
     despawn_cause: HashMap<u8, (Sender, usize)>,
+    /// reactions a poll owed to a system and did not deliver, with the cause of the event (C12: they were sent first)
+    missed_polled: Vec<(SysUid, Item, (Sender, usize))>,
     /// parent of each pool entity (fixed hierarchy)
     parent: Vec<Option<u8>>,
     /// pool entities whose auto-despawn signal has been dropped: the next garbage collection despawns them
@@ -332,6 +336,7 @@ impl Checker
             pending_mid_cleanup: None,
             cur_cause: None,
             despawn_cause: HashMap::new(),
+            missed_polled: Vec::new(),
             parent: Vec::new(),
             ent_doomed: HashSet::new(),
             ent_grace: HashSet::new(),
@@ -660,6 +665,7 @@ impl Checker
 
     fn tree_end(&mut self)
     {
+        self.missed_polled.clear();
         if !self.frames.is_empty()
         {
             self.viol("C09", format!("tree ended with {} open frames", self.frames.len()));
@@ -1293,6 +1299,13 @@ impl Checker
                             if es != sender || epos >= d.apply_pos { continue; }
                             if self.regs.iter().any(|r| r.in_table && r.in_flight && r.sys == s && r.key == Key::Despawn(*e)) { earlier.push(format!("despawn of entity {e}")); }
                         }
+                        for (ms, item, (es, epos)) in self.missed_polled.iter()
+                        {
+                            if *ms == s && *es == sender && *epos < d.apply_pos && !d.exp.contains(item)
+                            {
+                                earlier.push(format!("{:?} (the poll before this delivery owed the reaction and did not deliver it)", item));
+                            }
+                        }
                         if !earlier.is_empty()
                         {
                             self.viol("C12", format!("delivery {id} to system {s} started before the system reacted to earlier events of the same sender {:?}: {}", sender, earlier.join(", ")));
@@ -1423,6 +1436,7 @@ impl Checker
                                 if !self.arcs[a].doomed && *existed
                                 {
                                     self.viol_sys("C07", Some(s), format!("reactor {s} was garbage collected while {} of its triggers are still registered or pending", self.arcs[a].count));
+                                    self.viol_sys("C13", Some(s), format!("system {s} was collected although it still has registered triggers: its system state (locals, captured values) is lost while it should live"));
                                 }
                                 self.arcs[a].collected = true;
                             }
@@ -1574,6 +1588,7 @@ impl Checker
                     {
                         *observed.entry((u, item)).or_default() += 1;
                         d.exp.push(item);
+                        if let Some(i) = self.missed_polled.iter().position(|m| m.0 == u && m.1 == item) { self.missed_polled.remove(i); }
                     }
                     _ =>
                     {
@@ -1624,6 +1639,7 @@ impl Checker
         let mut allowed: HashMap<(SysUid, Item), i32> = HashMap::new();
         let mut required: HashMap<(SysUid, Item), i32> = HashMap::new();
         let mut n_events = 0;
+        let mut causes: HashMap<(SysUid, Item), (Sender, usize)> = HashMap::new();
         let mut order: [Vec<u8>; 2] = [Vec::new(), Vec::new()];
         for c in 0..2u8
         {
@@ -1643,12 +1659,16 @@ impl Checker
                 {
                     let key = (self.regs[i].sys, Item::Rem(c, EntRef::Pool(e)));
                     *allowed.entry(key).or_default() += 1;
-                    if ev.live_at_removal.contains(&i) { *required.entry(key).or_default() += 1; }
+                    if ev.live_at_removal.contains(&i)
+                    {
+                        *required.entry(key).or_default() += 1;
+                        if let Some(c) = ev.cause { causes.entry(key).or_insert(c); }
+                    }
                 }
             }
         }
         let dead = std::mem::take(&mut self.dead_unpolled);
-        self.despawn_cause.clear();
+        let despawn_cause = std::mem::take(&mut self.despawn_cause);
         for e in dead
         {
             n_events += 1;
@@ -1659,6 +1679,7 @@ impl Checker
                 let key = (r.sys, Item::Desp(EntRef::Pool(e)));
                 *allowed.entry(key).or_default() += 1;
                 *required.entry(key).or_default() += 1;
+                if let Some(c) = despawn_cause.get(&e) { causes.entry(key).or_insert(*c); }
                 // the handle moves out of the table into the queued reaction command
                 self.queued_despawn.push((r.sys, e, r.arc));
                 self.systems[r.sys as usize].lost_by.insert("despawn_fired");
@@ -1668,14 +1689,14 @@ impl Checker
         }
         if n_events >= 2 { self.rep.classes.hit("C08:two_events_in_one_poll"); }
         if n_events >= 1 { self.rep.classes.hit("C08:poll_with_event"); }
-        self.frames.push(Frame::Poll{ allowed, required, observed: HashMap::new(), n_events, order, progress: HashMap::new() });
+        self.frames.push(Frame::Poll{ allowed, required, observed: HashMap::new(), n_events, order, progress: HashMap::new(), causes });
     }
 
     fn on_poll_end(&mut self)
     {
         match self.frames.pop()
         {
-            Some(Frame::Poll{ allowed, required, observed, .. }) =>
+            Some(Frame::Poll{ allowed, required, observed, causes, .. }) =>
             {
                 let mut keys: Vec<(SysUid, Item)> = allowed.keys().chain(observed.keys()).copied().collect();
                 keys.sort();
@@ -1688,6 +1709,7 @@ impl Checker
                     if o < r || o > a
                     {
                         self.viol_sys("C08", Some(k.0), format!("poll: system {} received {o} reactions for {:?}; at least {r} and at most {a} are due", k.0, k.1));
+                        if o < r { if let Some(c) = causes.get(&k) { self.missed_polled.push((k.0, k.1, *c)); } }
                     }
                 }
             }
@@ -2044,6 +2066,10 @@ impl Checker
                     self.viol_sys("C07", Some(u as SysUid), format!("after the end-of-frame collection system {u} {} but {}",
                         if lives { "still exists" } else { "is gone" },
                         if should_live { "it still has registered triggers / is persistent" } else { "it has no trigger left" }));
+                    if should_live && !lives && s.arc.map(|a| self.arcs[a].count > 0).unwrap_or(true)
+                    {
+                        self.viol_sys("C13", Some(u as SysUid), format!("system {u} should exist but is gone: its system state (locals, captured values) is lost"));
+                    }
                 }
                 if !lives && !s.canary_dropped && s.shape != Shape::NamedFn
                 {
